@@ -898,17 +898,17 @@ def _settings_str(vals, order=0):
   return "".join(f" {n}:{v}" for n, v in items)
 
 
-LINE_RANGE = [v + a for v in ("22", "23", "24", "30", "-23", "-24", "-30", "39", "40", "41", "45", "-40", "-41", "-45", "1000", "-1000") for a in ("", ",center", ",end")]
+LINE_RANGE = [v + a for v in ("22", "23", "24", "30", "-23", "-24", "-30", "39", "40", "41", "45", "-40", "-41", "-45", "1000", "-1000", "12.5%", "0.5%", "99.5%", "33.3%") for a in ("", ",center", ",end")]
 
 
 def fam_line_range():
-  prod = Product([VERTICAL, LINE_RANGE, [None, "50%"]])
+  prod = Product([VERTICAL, LINE_RANGE, [None, "50%", "33.3%"]])
 
   def make(i):
     v, ln, sz = prod.decode(i)
     s_a = _settings_str((v, ln, None, sz, None))
     return "WEBVTT\n\n00:01.000 --> 00:02.000" + s_a + "\nfirst\n\n00:03.000 --> 00:04.000 line:1\nsecond\n"
-  return _file_family("F-line-range", prod.n, make, "line numbers at and beyond the 23-row / 40-column grid, both signs x line alignment x vertical x size")
+  return _file_family("F-line-range", prod.n, make, "line numbers at and beyond the 23-row / 40-column grid, both signs, and fractional percentages x line alignment x vertical x size (incl. fractional)")
 
 
 def fam_settings():
